@@ -107,7 +107,7 @@ Definition after_fwd (s : sim) (sl : list nat) : sim :=
 Lemma compute_slots_mem st s sl : EfOK s ->
   compute_slots false st s sl =
   mkRes (after_fwd s sl) (fun i => st i)
-        (map (fun i => mkSolve KF i TFwd (isSome (eff false st s i))) sl) None.
+        (map (fun i => mkSolve KF i TFwd (isSome (eff false st s i)) (s_model s)) sl) None.
 Proof.
   intros He. unfold compute_slots.
   rewrite (existsb_all_false _ _ (fun i => missing_mem st s i He)). reflexivity.
@@ -119,7 +119,7 @@ Definition todo_of (n : nat) (s : sim) : list nat :=
 Lemma ensure_all_mem n st s : EfOK s ->
   ensure_all n false st s =
   mkRes (after_fwd s (todo_of n s)) (fun i => st i)
-        (map (fun i => mkSolve KF i TFwd false) (todo_of n s)) None.
+        (map (fun i => mkSolve KF i TFwd false (s_model s)) (todo_of n s)) None.
 Proof.
   intros He. unfold ensure_all.
   rewrite (find_all_false _ _ (fun i => missing_mem st s i He)). reflexivity.
@@ -580,102 +580,160 @@ Proof.
   reflexivity.   (* [eff false st] reduces to the record's own entry *)
 Qed.
 
-(* --------------------------------------------- every solve uses its tolerance *)
+(* ------- every solve uses the tolerance of its kind AND the current model ------- *)
 Definition tol_ok (so : solve) : Prop :=
   so_tol so = match so_kind so with KF => TFwd | _ => TGrad end.
+(* [sok m]: right tolerance, and the model version handed to the solver is m *)
+Definition sok (m : nat) (so : solve) : Prop := tol_ok so /\ so_model so = m.
 
-Ltac tol_map := apply Forall_forall; intros ? Hx; apply in_map_iff in Hx;
-                destruct Hx as (? & <- & _); reflexivity.
+Ltac sok_map := apply Forall_forall; intros ? Hx; apply in_map_iff in Hx;
+                destruct Hx as (? & <- & _); split; reflexivity.
 
-Lemma compute_slots_tol f st s sl : Forall tol_ok (r_trace (compute_slots f st s sl)).
-Proof. unfold compute_slots. destruct (existsb _ sl); cbn; [constructor | tol_map]. Qed.
+(* sub-steps never change the model version *)
+Lemma compute_slots_model f st s sl : s_model (r_sim (compute_slots f st s sl)) = s_model s.
+Proof.
+  unfold compute_slots. destruct (existsb _ sl).
+  - destruct sl as [|i sl]; [reflexivity|]. cbn [r_sim]. destruct (missing f st s i); reflexivity.
+  - destruct sl; reflexivity.
+Qed.
 
-Lemma ensure_slot_tol f st s i : Forall tol_ok (r_trace (ensure_slot f st s i)).
+Lemma do_compute_model n f st s : s_model (r_sim (do_compute n f st s)) = s_model s.
+Proof.
+  unfold do_compute. destruct (r_err (compute_slots f st s (seq 0 n))); cbn [r_sim set_computed s_model];
+    apply compute_slots_model.
+Qed.
+
+Lemma do_misfit_model n f st s : s_model (r_sim (do_misfit n f st s)) = s_model s.
+Proof.
+  unfold do_misfit. destruct (s_misfit s); [reflexivity|].
+  destruct (s_computed s).
+  - reflexivity.
+  - destruct (r_err (do_compute n f st s)); cbn [r_sim set_misfit s_model]; apply do_compute_model.
+Qed.
+
+Lemma compute_slots_sok f st s sl : Forall (sok (s_model s)) (r_trace (compute_slots f st s sl)).
+Proof. unfold compute_slots. destruct (existsb _ sl); cbn [r_trace]; [constructor | sok_map]. Qed.
+
+Lemma ensure_slot_sok f st s i : Forall (sok (s_model s)) (r_trace (ensure_slot f st s i)).
 Proof.
   unfold ensure_slot. destruct (eff f st s i) as [t|]; [destruct t|];
-    try (cbn; constructor); apply compute_slots_tol.
+    try (cbn [r_trace]; constructor); apply compute_slots_sok.
 Qed.
 
-Lemma ensure_all_tol n f st s : Forall tol_ok (r_trace (ensure_all n f st s)).
-Proof. unfold ensure_all. cbn. tol_map. Qed.
+Lemma ensure_all_sok n f st s : Forall (sok (s_model s)) (r_trace (ensure_all n f st s)).
+Proof. unfold ensure_all. cbn [r_trace]. sok_map. Qed.
 
-Lemma do_compute_tol n f st s : Forall tol_ok (r_trace (do_compute n f st s)).
+Lemma do_compute_sok n f st s : Forall (sok (s_model s)) (r_trace (do_compute n f st s)).
 Proof.
-  unfold do_compute. destruct (r_err (compute_slots f st s (seq 0 n))); cbn [r_trace fst]; apply compute_slots_tol.
+  unfold do_compute. destruct (r_err (compute_slots f st s (seq 0 n))); cbn [r_trace fst]; apply compute_slots_sok.
 Qed.
 
-Lemma do_misfit_tol n f st s : Forall tol_ok (r_trace (do_misfit n f st s)).
+Lemma do_misfit_sok n f st s : Forall (sok (s_model s)) (r_trace (do_misfit n f st s)).
 Proof.
   unfold do_misfit. destruct (s_misfit s); [constructor|].
   destruct (s_computed s).
   - cbn [r_trace fst]. constructor.
-  - destruct (r_err (do_compute n f st s)); cbn [r_trace fst]; apply do_compute_tol.
+  - destruct (r_err (do_compute n f st s)); cbn [r_trace fst]; apply do_compute_sok.
 Qed.
 
-Lemma bsolves_tol n b : Forall tol_ok (bsolves n b).
-Proof. unfold bsolves. tol_map. Qed.
-Lemma gsolves_tol n : Forall tol_ok (gsolves n).
-Proof. unfold gsolves. tol_map. Qed.
+Lemma bsolves_sok n b m : Forall (sok m) (bsolves n b m).
+Proof. unfold bsolves. sok_map. Qed.
+Lemma gsolves_sok n m : Forall (sok m) (gsolves n m).
+Proof. unfold gsolves. sok_map. Qed.
 
-Lemma grad_core_tol q n f st s : Forall tol_ok (r_trace (grad_core q n f st s)).
+Lemma grad_core_sok q n f st s : Forall (sok (s_model s)) (r_trace (grad_core q n f st s)).
 Proof.
   unfold grad_core. destruct (q_keep q).
-  - destruct (existsb _ _); [cbn [r_trace fst]; apply bsolves_tol|]. destruct (forallb _ _); cbn [r_trace fst]; apply bsolves_tol.
+  - destruct (existsb _ _); [cbn [r_trace fst]; apply bsolves_sok|].
+    destruct (forallb _ _); cbn [r_trace fst]; apply bsolves_sok.
   - destruct (r_err (ensure_all n f st _)); cbn [r_trace fst]; apply Forall_app; split;
-      try apply bsolves_tol; apply ensure_all_tol.
+      try apply bsolves_sok;
+      apply (ensure_all_sok n f st (set_tol (set_grad s None true) TGrad)).
 Qed.
 
-Lemma do_gradient_tol q n f st s : Forall tol_ok (r_trace (do_gradient q n f st s)).
+Lemma do_gradient_sok q n f st s : Forall (sok (s_model s)) (r_trace (do_gradient q n f st s)).
 Proof.
   unfold do_gradient. destruct (s_gradient s); [constructor|].
-  destruct (r_err (do_misfit n f st s)); [apply do_misfit_tol|].
-  cbn [r_trace fst]. apply Forall_app; split; [apply do_misfit_tol | apply grad_core_tol].
+  destruct (r_err (do_misfit n f st s)); [apply do_misfit_sok|].
+  cbn [r_trace fst]. apply Forall_app; split; [apply do_misfit_sok|].
+  rewrite <- (do_misfit_model n f st s). apply grad_core_sok.
 Qed.
 
-Lemma jvec_core_tol q n f st s v : Forall tol_ok (r_trace (jvec_core q n f st s v)).
+Lemma jvec_core_sok q n f st s v : Forall (sok (s_model s)) (r_trace (jvec_core q n f st s v)).
 Proof.
   unfold jvec_core. destruct (q_keep q).
-  - destruct n; [constructor|]. destruct (find _ _); cbn [r_trace fst]; [constructor | apply gsolves_tol].
-  - destruct (r_err (ensure_all n f st s)); cbn [r_trace fst]; [apply ensure_all_tol|].
-    apply Forall_app; split; [apply ensure_all_tol | apply gsolves_tol].
+  - destruct n; [constructor|]. destruct (find _ _); cbn [r_trace fst]; [constructor | apply gsolves_sok].
+  - destruct (r_err (ensure_all n f st s)); cbn [r_trace fst]; [apply ensure_all_sok|].
+    apply Forall_app; split; [apply ensure_all_sok | apply gsolves_sok].
 Qed.
 
-Lemma do_jvec_tol q n f st s v : Forall tol_ok (r_trace (do_jvec q n f st s v)).
+Lemma do_jvec_sok q n f st s v : Forall (sok (s_model s)) (r_trace (do_jvec q n f st s v)).
 Proof.
-  unfold do_jvec. destruct (r_err (do_misfit n f st s)); [apply do_misfit_tol|].
-  cbn [r_trace fst]. apply Forall_app; split; [apply do_misfit_tol | apply jvec_core_tol].
+  unfold do_jvec. destruct (r_err (do_misfit n f st s)); [apply do_misfit_sok|].
+  cbn [r_trace fst]. apply Forall_app; split; [apply do_misfit_sok|].
+  rewrite <- (do_misfit_model n f st s). apply jvec_core_sok.
 Qed.
 
-Lemma do_jtvec_found_tol q n f st s w : Forall tol_ok (r_trace (fst (do_jtvec_found n q f st s w))).
+Lemma do_jtvec_found_sok q n f st s w :
+  Forall (sok (s_model s)) (r_trace (fst (do_jtvec_found n q f st s w))).
 Proof.
   unfold do_jtvec_found. destruct (s_residual s); [|constructor].
-  destruct (s_weights s); [|constructor]. cbn [r_trace fst]. apply do_gradient_tol.
+  destruct (s_weights s); [|constructor]. cbn [r_trace fst].
+  apply (do_gradient_sok q n f st (set_grad (set_residual s (wow s w)) None false)).
 Qed.
 
-Lemma do_jtvec_fixed_tol q n f st s w : Forall tol_ok (r_trace (fst (do_jtvec_fixed n q f st s w))).
+Lemma do_jtvec_fixed_sok q n f st s w :
+  Forall (sok (s_model s)) (r_trace (fst (do_jtvec_fixed n q f st s w))).
 Proof.
-  unfold do_jtvec_fixed. destruct (r_err (do_misfit n f st s)); [apply do_misfit_tol|].
-  cbn [r_trace fst]. apply Forall_app; split; [apply do_misfit_tol | apply do_gradient_tol].
+  unfold do_jtvec_fixed. destruct (r_err (do_misfit n f st s)); [apply do_misfit_sok|].
+  cbn [r_trace fst]. apply Forall_app; split; [apply do_misfit_sok|].
+  rewrite <- (do_misfit_model n f st s).
+  apply (do_gradient_sok q n f (r_store (do_misfit n f st s))
+           (set_grad (set_residual (r_sim (do_misfit n f st s))
+                        (wow (r_sim (do_misfit n f st s)) w)) None false)).
+Qed.
+
+(* every solve issued by a step on simulation k: tolerance of its kind, and
+   the model version that simulation k has when the operation is called *)
+Lemma solves_ok_proof q w k o s : nth_error (w_sims w) k = Some s ->
+  Forall (sok (s_model s)) (o_trace (snd (step q w (k, o)))).
+Proof.
+  intros E. unfold step. rewrite E.
+  destruct o; unfold of_res; cbn [snd o_trace].
+  - apply do_compute_sok.
+  - apply do_misfit_sok.
+  - apply do_gradient_sok.
+  - apply do_jvec_sok.
+  - destruct (q_jtvec q).
+    + pose proof (do_jtvec_found_sok q (w_n w) (w_file w) (w_store w) s w0) as X.
+      destruct (do_jtvec_found _ _ _ _ _ _). exact X.
+    + pose proof (do_jtvec_fixed_sok q (w_n w) (w_file w) (w_store w) s w0) as X.
+      destruct (do_jtvec_fixed _ _ _ _ _ _). exact X.
+  - apply ensure_slot_sok.
+  - apply ensure_slot_sok.
+  - destruct (do_clean _ _ _ _). constructor.
+  - destruct (json_fails q s x); constructor.
+  - cbv zeta. destruct (do_clean _ _ _ _). constructor.
 Qed.
 
 Lemma tol_always_proof q w ko : Forall tol_ok (o_trace (snd (step q w ko))).
 Proof.
-  unfold step. destruct ko as [k o]. destruct (nth_error (w_sims w) k) as [s|]; [|constructor].
-  destruct o; unfold of_res; cbn [snd o_trace].
-  - apply do_compute_tol.
-  - apply do_misfit_tol.
-  - apply do_gradient_tol.
-  - apply do_jvec_tol.
-  - destruct (q_jtvec q).
-    + pose proof (do_jtvec_found_tol q (w_n w) (w_file w) (w_store w) s w0) as X.
-      destruct (do_jtvec_found _ _ _ _ _ _). exact X.
-    + pose proof (do_jtvec_fixed_tol q (w_n w) (w_file w) (w_store w) s w0) as X.
-      destruct (do_jtvec_fixed _ _ _ _ _ _). exact X.
-  - apply ensure_slot_tol.
-  - apply ensure_slot_tol.
-  - destruct (do_clean _ _ _ _). constructor.
-  - destruct (json_fails q s x); constructor.
-  - cbv zeta. destruct (do_clean _ _ _ _). constructor.
+  destruct ko as [k o]. destruct (nth_error (w_sims w) k) as [s|] eqn:E.
+  - eapply Forall_impl; [|exact (solves_ok_proof q w k o s E)]. intros so (H & _). exact H.
+  - unfold step. rewrite E. constructor.
+Qed.
+
+(* after a model update every later solve uses the NEW version (no stale model
+   survives a model update + clean): the version in the trace is the one the
+   simulation has in the state the operation starts from *)
+Lemma setmodel_sets_version q w k m all repl s :
+  nth_error (w_sims w) k = Some s ->
+  exists s', nth_error (w_sims (fst (step q w (k, OSetModel m all repl)))) k = Some s' /\ s_model s' = m.
+Proof.
+  intros E. assert (Hk : k < length (w_sims w)) by (apply nth_error_Some; congruence).
+  unfold step. rewrite E. cbv zeta.
+  destruct all; unfold do_clean; cbn [fst put w_sims];
+    rewrite (nth_error_upd_same k _ _ Hk); eexists; split; reflexivity.
 Qed.
 
 (* ----------------------------------------------------------- refutations *)
@@ -716,7 +774,7 @@ Proof. vm_compute. discriminate. Qed.
 
 (* file mode, repaired code: a copy shares the field files of its original *)
 Definition wit_file : list (nat * sop) :=
-  [(0, OCompute); (0, OExport VCopy DComputed); (1, OSetModel 1 false); (1, OCompute)].
+  [(0, OCompute); (0, OExport VCopy DComputed); (1, OSetModel 1 false false); (1, OCompute)].
 Lemma refuted_file_copy :
   ask fixed (run fixed (init_world 2 true 0) wit_file) 0 QGradient
   <> ask fixed (init_world 2 true 0) 0 QGradient.
@@ -732,7 +790,7 @@ Proof. vm_compute. discriminate. Qed.
 (* ------------------------------------------------------------- non-vacuity *)
 Example ex_reachable_nontrivial :
   let w := run fixed (init_world 2 false 0)
-             [(0, OGradient); (0, OJtvec 1); (0, OExport VCopy DResults); (1, OSetModel 1 false);
+             [(0, OGradient); (0, OJtvec 1); (0, OExport VCopy DResults); (1, OSetModel 1 false false);
               (1, OJvec 0); (0, OClean CKeep)] in
   length (w_sims w) = 2 /\
   ask fixed w 0 QGradient = (RVal (Grad 0), []) /\
@@ -748,5 +806,17 @@ Proof. vm_compute. split; reflexivity. Qed.
 
 Example ex_trace_nonempty :
   o_trace (snd (step fixed (init_world 2 false 0) (0, OGradient))) =
-  [mkSolve KF 0 TFwd false; mkSolve KF 1 TFwd false; mkSolve KB 0 TGrad false; mkSolve KB 1 TGrad false].
+  [mkSolve KF 0 TFwd false 0; mkSolve KF 1 TFwd false 0; mkSolve KB 0 TGrad false 0; mkSolve KB 1 TGrad false 0].
 Proof. vm_compute. reflexivity. Qed.
+
+Lemma solves_model_proof q w k o s : nth_error (w_sims w) k = Some s ->
+  Forall (fun so => so_model so = s_model s) (o_trace (snd (step q w (k, o)))).
+Proof.
+  intros E. eapply Forall_impl; [|exact (solves_ok_proof q w k o s E)]. intros so (_ & H). exact H.
+Qed.
+
+Example ex_solves_after_update :
+  let w := run fixed (init_world 2 false 0) [(0, OCompute); (0, OSetModel 1 false true)] in
+  map so_model (o_trace (snd (step fixed w (0, OGradient)))) = [1; 1; 1; 1]
+  /\ ask fixed w 0 QSynthetic = (RNone, [Syn 1 0; Syn 1 1]).
+Proof. vm_compute. split; reflexivity. Qed.
